@@ -250,6 +250,10 @@ def gen_history(rng, k, tier, sms, failures=False, mixed=True):
     ncalls = rng.choice([2, 3, 4])
     j = 0
     shared_v = 1
+    if mixed and not failures and rng.random() < 0.25:
+        # the workers are started by apply_async (they stay alive whatever keep_alive says); setters and map calls follow
+        calls.append({'kind': 'apply_batch', 'jobs': [{'id': i, 'args': [700 + i], 'cbs': [False, False]} for i in range(rng.choice([1, 3]))],
+                      'get_timeout': 30, 'no_join': True, 'dynamic_extras': True})
     while j < ncalls:
         r = rng.random()
         if calls and r < 0.3:
